@@ -26,6 +26,7 @@ ASSUMPTIONS = ["work is measured as monitored events (PY_START + backward JUMP) 
 MIN_COUNTS = {"quick": {"nontrivial": 20000, "reparsed_compared": 20000, "evaluated_compared": 3000},
               "thorough": {"nontrivial": 150000, "reparsed_compared": 150000, "evaluated_compared": 20000}}
 CASE_TIMEOUT = 600
+MEM_LIMIT_GB = 6
 MIN_SHARD = 4
 EXHAUSTIVE = {"quick": False, "thorough": False}
 
